@@ -166,12 +166,115 @@ def rule_right_align_replay(ctx, p, cfg, rid="T10"):
             raise ShapeUnrecognised("RightAlignWriter::finish: no replay of a buffer field (%s) recognised" % [n for n, _ in vecs])
 
 
+
+def rule_configured_pattern(ctx, p, cfg, rid="T11"):
+    """An encoder configured from a document renders the document's pattern - every well-formed pattern, the empty one
+    included; the built-in default is for a document that gives none."""
+    with ctx.rule(rid, "a configured pattern is the pattern used", cfg) as r:
+        fs = [f for path, f in p.fns.items() if "PatternEncoderDeserializer" in path and path.endswith("::deserialize") and "config::raw::Deserialize" in path]
+        if len(fs) != 1:
+            raise AnchorMissing("PatternEncoderDeserializer::deserialize not found")
+        f = fs[0]
+        news = f.calls(PNEW)
+        defs = [c for c in f.calls() if (c.callee or "").endswith("as core::default::Default>::default") and "PatternEncoder" in (c.callee or "")]
+        r.require(len(news) == 1 and len(defs) == 1, "two-ways-to-build", fn=f, detail="PatternEncoder::new sites %d, ::default sites %d" % (len(news), len(defs)))
+        if len(news) != 1 or len(defs) != 1:
+            return
+        arg = news[0].arg(0)
+        r.require(any(x[0] == "field" and deep_strip(x[1]) == ("param", 2) for x in walk(arg)) and not any(x[0] in ("phi", "bin") for x in walk(arg)), "parses-the-configured-text", fn=f, site=news[0].at,
+                  detail="PatternEncoder::new(%s)" % show(arg, 5))
+        conds = f.conditions(defs[0].block)
+        okc = len(conds) == 1
+        if okc:
+            sb, si, al = conds[0]
+            d = strip(si.discr)
+            okc = d[0] == "discr" and deep_strip(d[1])[0] == "field" and deep_strip(deep_strip(d[1])[1]) == ("param", 2) and {si.label(v) for v, _ in al} == {"None"}
+        r.require(okc, "default-only-when-no-pattern-is-given", fn=f, site=defs[0].at, detail="the built-in pattern is used exactly on the None edge of config.pattern",
+                  fail_detail="the built-in default pattern is chosen on %s: a pattern the document does give (e.g. the empty one, which renders nothing) is replaced by it" % (
+                      [show(si.discr, 4) for sb, si, al in conds] or "every path"))
+
+
+
+def rule_arm_results(ctx, p, cfg, rid="T12"):
+    """What each formatter name turns into: its own FormattedChunk variant under the piece's own width parameters, or an
+    error chunk - never some other chunk (an inner chunk handed back in place of the group, a chunk under rewritten
+    parameters).  Width specs compose through nesting only if every `{..}` keeps its own layer."""
+    with ctx.rule(rid, "a formatter becomes its own chunk under its own parameters", cfg) as r:
+        f = p.fn(FROM_PIECE)
+        tests = tables.string_key_tests(f)
+        subj = {}
+        for t in tests:
+            subj[t[3]] = subj.get(t[3], 0) + 1
+        main = max(subj, key=subj.get)
+        tests = [t for t in tests if t[3] == main]
+        tb = [t[0] for t in tests]
+        rets = q.ret_assignments(f)
+
+        def is_params(v):
+            v = deep_strip(v)
+            return v[0] == "field" and v[2] == "parameters" and any(deep_strip(x) == ("param", 1) for x in walk(v))
+
+        def variant_of(v):
+            v = deep_strip(v)
+            if v[0] == "agg" and v[1] == FCHUNK:
+                return v[2]
+            if v[0] == "const" and v[1] == "fn" and isinstance(v[2], str) and v[2].startswith(FCHUNK + "::"):
+                return v[2].rsplit("::", 1)[-1]
+            return None
+
+        def helper_ok(path):
+            g = p.fns[path]
+            for b, e in q.ret_assignments(g):
+                e = deep_strip(e)
+                alts = e[1] if e[0] == "phi" else (e,)
+                for a in alts:
+                    a = deep_strip(a)
+                    if a[0] == "agg" and a[2] == "Error":
+                        continue
+                    if a[0] == "agg" and a[2] == "Formatted":
+                        fd = dict(a[3])
+                        if any(deep_strip(x)[0] == "param" for x in walk(fd.get("params"))) and any(deep_strip(x)[0] == "param" for x in walk(fd.get("chunk"))):
+                            continue
+                    return False
+            return True
+        n = 0
+        for (b, key, mode, sj, tt, ft) in tests:
+            want = NAME_TABLE.get(key)
+            if want is None:
+                continue
+            region = f.reach(tt, avoid=set(tb), include_src=True)
+            bad = []
+            for rb, e in rets:
+                if rb not in region:
+                    continue
+                e = deep_strip(e)
+                alts = e[1] if e[0] == "phi" else (e,)
+                for a in alts:
+                    a = deep_strip(a)
+                    n += 1
+                    if a[0] == "agg" and a[2] == "Error":
+                        continue
+                    if a[0] == "agg" and a[2] == "Formatted":
+                        fd = dict(a[3])
+                        if variant_of(fd.get("chunk")) == want and is_params(fd.get("params")):
+                            continue
+                    if a[0] == "call" and a[1] in p.fns and any(variant_of(x) == want for arg in a[2] for x in walk(arg)) and any(is_params(arg) for arg in a[2]) and helper_ok(a[1]):
+                        continue
+                    bad.append(show(a, 4))
+            r.require(not bad, "arm-result:%r" % key, fn=f, detail="%r yields FormattedChunk::%s under the piece's parameters, or an error" % (key, want),
+                      fail_detail="the %r arm can yield %s: not FormattedChunk::%s under this piece's own parameters (a group that hands back its inner chunk, or a chunk whose parameters were replaced, loses a layer of the width law)" % (key, bad[:2], want))
+        r.floor("arm-results", n, 40)
+
+
 def run_cfg(ctx, p, cfg, release):
     from rules import c10
     with ctx.rule("T9", "a width argument never drops text the destination has not taken", cfg) as r:
         # the value's text passes through the width writers: what they charge to their budgets is what was consumed (C10.A7 re-evaluated)
         c10.rule_counts_consumed(r, p)
     rule_right_align_replay(ctx, p, cfg, "T10")
+    rule_arm_results(ctx, p, cfg, "T12")
+    if "config_parsing" in p.meta.get("features", []):
+        rule_configured_pattern(ctx, p, cfg, "T11")
     with ctx.rule("T1", "formatter name table", cfg) as r:
         f = p.fn(FROM_PIECE)
         tests = tables.string_key_tests(f)
